@@ -527,5 +527,14 @@ def divide_outputs(
         if not isinstance(e, MailboxKilled):
             raise
     else:
-        for m in mbs_to_kill:
-            m.close()
+        try:
+            for m in mbs_to_kill:
+                m.close()
+        except Exception as e:
+            # One of the outputs could not be closed (e.g. it was killed by its
+            # saver while we waited): take the other outputs down with it,
+            # otherwise their readers would wait for the timeout.
+            for m in mbs_to_kill:
+                m.kill_from_exception(e, reraise=False)
+            if not isinstance(e, MailboxKilled):
+                raise
